@@ -18,7 +18,7 @@ from ..core.engine import Inapplicable, seed_lib_rng
 from ..core.world import World, pick, swarm_weights
 from .c01 import same
 
-DRAWINGS = ["square", "pentagon", "square_hole", "two_apart", "island", "three_nested", "circle", "circle_in_square", "stadium", "square_and_circle", "concave"]
+DRAWINGS = ["square", "pentagon", "square_hole", "two_apart", "island", "three_nested", "circle", "circle_in_square", "stadium", "square_and_circle", "concave", "c_slot", "dshape", "lens", "plate_d_and_lens", "c_slot_island", "thin_c_around_bore", "thin_c_and_block"]
 READS = ["paths", "discrete", "polygons_closed", "polygons_full", "area", "length", "is_closed", "body_count", "root", "enclosure_directed", "bounds", "extents", "identifier_hash"]
 OPS = ["read", "transform", "merge_vertices", "copy", "cache_clear", "reverse_entity", "roundtrip", "read_all"]
 
@@ -68,6 +68,25 @@ def make_drawing(name, salt):
         return [sq((0, 0), 1.0, 0), {"kind": "circle", "c": np.array([4.0, 0.0]), "r": 1.0, "depth": 0}]
     if name == "stadium":
         return [{"kind": "stadium", "c": np.array([0.0, 0.0]), "w": 2.0, "r": 0.75, "depth": 0}]
+    cshape = np.array([[-2, -2], [2, -2], [2, -1], [-1, -1], [-1, 1], [2, 1], [2, 2], [-2, 2]], dtype=float)
+    if name == "c_slot":
+        # a C-shaped hole wrapping around a sibling hole: the C's centroid lies outside the C and inside neither
+        return [sq((0, 0), 4.0, 0), {"kind": "poly", "pts": cshape + rs.uniform(-j, j, cshape.shape), "depth": 1}, sq((0.6, 0.0), 0.5, 1)]
+    if name == "c_slot_island":
+        return [{"kind": "poly", "pts": cshape * 1.5 + rs.uniform(-j, j, cshape.shape), "depth": 0}, sq((0.9, 0.0), 0.6, 0), sq((6.5, 0.0), 1.0, 0)]
+    # a thin C whose centroid falls inside a sibling of larger area that it wraps around but does not enclose
+    o, i_ = 1.6, 1.3
+    thin_c = np.array([[-o, -o], [o, -o], [o, -0.4], [i_, -0.4], [i_, -i_], [-i_, -i_], [-i_, i_], [i_, i_], [i_, 0.4], [o, 0.4], [o, o], [-o, o]], dtype=float)
+    if name == "thin_c_around_bore":
+        return [sq((0, 0), 4.0, 0), {"kind": "poly", "pts": thin_c + rs.uniform(-0.01, 0.01, thin_c.shape), "depth": 1}, sq((0.0, 0.0), 1.0, 1)]
+    if name == "thin_c_and_block":
+        return [{"kind": "poly", "pts": thin_c + rs.uniform(-0.01, 0.01, thin_c.shape), "depth": 0}, sq((0.0, 0.0), 1.0, 0)]
+    if name == "dshape":
+        return [{"kind": "dshape", "c": np.array([0.3, 0.2]), "r": 1.2, "depth": 0}]
+    if name == "lens":
+        return [{"kind": "lens", "c": np.array([0.0, 0.0]), "r": 1.0, "depth": 0}]
+    if name == "plate_d_and_lens":
+        return [sq((0, 0), 5.0, 0), {"kind": "dshape", "c": np.array([-2.0, 0.5]), "r": 1.2, "depth": 1}, {"kind": "lens", "c": np.array([2.2, -0.5]), "r": 1.0, "depth": 1}]
     raise ValueError(name)
 
 
@@ -103,6 +122,16 @@ def present(curves, pr):
                 V.extend((c["c"] + c["r"] * np.column_stack([np.cos(ang), np.sin(ang)])).tolist())
                 for a in (0, 2, 4):
                     ents.append(("Arc", [base + a, base + a + 1, base + (a + 2) % 6]))
+        elif c["kind"] == "dshape":
+            # an arc whose end points are joined directly by a two-point chord: a loop of exactly two entities
+            ang = np.array([-1.03, 0.585, 2.2])  # span 3.23 rad: not a multiple of the 0.08 rad segment angle (no knife-edge segment count)
+            V.extend((c["c"] + c["r"] * np.column_stack([np.cos(ang), np.sin(ang)])).tolist())
+            ents += [("Arc", [base, base + 1, base + 2]), ("Line", [base + 2, base])]
+        elif c["kind"] == "lens":
+            # a full circle made of exactly two arcs sharing both end points
+            ang = np.array([0.2, 1.7, 3.3, 5.0])
+            V.extend((c["c"] + c["r"] * np.column_stack([np.cos(ang), np.sin(ang)])).tolist())
+            ents += [("Arc", [base, base + 1, base + 2]), ("Arc", [base + 2, base + 3, base])]
         else:
             w, r, cx, cy = c["w"], c["r"], c["c"][0], c["c"][1]
             P = [[cx - w / 2, cy - r], [cx + w / 2, cy - r], [cx + w / 2 + r, cy], [cx + w / 2, cy + r], [cx - w / 2, cy + r], [cx - w / 2 - r, cy]]
@@ -437,7 +466,7 @@ class C14(World):
         def poly(cv):
             if cv["kind"] == "poly":
                 return Polygon(cv["pts"])
-            if cv["kind"] == "circle":
+            if cv["kind"] in ("circle", "lens", "dshape"):
                 return Point(cv["c"]).buffer(cv["r"])
             return Point(cv["c"]).buffer(cv["r"] + cv["w"] / 2)
 
